@@ -80,11 +80,18 @@ class Facts:
 FACTS = Facts()
 
 
+RESET_HOOKS = []      # per-path state of other modules (reset together with the fact store)
+
+
 def reset_facts():
     global FACTS
+    for h in RESET_HOOKS:
+        h()
     FACTS = Facts()
     _fresh_counter.clear()
     _ABS_CACHE.clear()
+    _KNOWN_LEN.clear()
+    _ATOMS.clear()
     del _ABS_SIDE[:]
     _ABS_SIDE_SEEN.clear()
     return FACTS
@@ -485,6 +492,9 @@ _ABS_SIDE_SEEN = set()
 
 
 def abstract_nl(e):
+    """nonlinear abstraction with a canonical polynomial normal form: every integer arithmetic term is expanded into
+    sum(coeff * monomial); a monomial of degree >= 2 becomes a (sorted, left-nested) mulU chain.  So algebraically equal
+    ways of writing a product (distribution, association, order) abstract to the same term."""
     k = e.get_id()
     r = _ABS_CACHE.get(k)
     if r is not None:
@@ -493,39 +503,16 @@ def abstract_nl(e):
         _ABS_CACHE[k] = (e, e)
         return e
     kind = e.decl().kind()
-    out = None
-    if kind == z3.Z3_OP_MUL:
-        # flatten nested products, multiply the numerals, sort the other factors: (d*y)*y and d*(y*y) abstract alike
-        factors, stack = [], list(e.children())
-        while stack:
-            f = stack.pop()
-            if z3.is_app(f) and f.decl().kind() == z3.Z3_OP_MUL:
-                stack.extend(f.children())
-            else:
-                factors.append(f)
-        coeff = 1
-        rest = []
-        for f in factors:
-            if z3.is_int_value(f):
-                coeff *= f.as_long()
-            else:
-                rest.append(abstract_nl(f))
-        if len(rest) >= 2:
-            rest.sort(key=lambda a: a.get_id())
-            acc = rest[0]
-            for a in rest[1:]:
-                acc = mulU(acc, a)
-            out = acc if coeff == 1 else IV(coeff) * acc
-        elif len(rest) == 1:
-            out = rest[0] if coeff == 1 else IV(coeff) * rest[0]
-        else:
-            out = IV(coeff)
+    if z3.is_int(e) and kind in (z3.Z3_OP_MUL, z3.Z3_OP_ADD, z3.Z3_OP_SUB, z3.Z3_OP_UMINUS):
+        poly = _to_poly(e)
+        out = _from_poly(poly) if poly is not None else None
+        if out is None:
+            out = e.decl()(*[abstract_nl(a) for a in e.children()])
         _ABS_CACHE[k] = (e, out)
         return out
     args = [abstract_nl(a) for a in e.children()]
-    if False:
-        pass
-    elif kind in (z3.Z3_OP_IDIV, z3.Z3_OP_MOD) and not z3.is_int_value(args[1]):
+    out = None
+    if kind in (z3.Z3_OP_IDIV, z3.Z3_OP_MOD) and not z3.is_int_value(args[1]):
         a, b = args
         out = (divU if kind == z3.Z3_OP_IDIV else modU)(a, b)
         dv, md = divU(a, b), modU(a, b)
@@ -541,4 +528,93 @@ def abstract_nl(e):
     if out is None:
         out = e.decl()(*args) if any(a.get_id() != b.get_id() for a, b in zip(args, e.children())) else e
     _ABS_CACHE[k] = (e, out)
+    return out
+
+
+_POLY_LIMIT = 400
+
+
+def _to_poly(e):
+    """integer term -> {monomial (sorted tuple of atom ids): coeff}, atoms in _ATOMS; None if it grows too large"""
+    if z3.is_int_value(e):
+        c = e.as_long()
+        return {(): c} if c else {}
+    if z3.is_app(e) and z3.is_int(e):
+        kind = e.decl().kind()
+        if kind == z3.Z3_OP_ADD:
+            acc = {}
+            for ch in e.children():
+                p = _to_poly(ch)
+                if p is None:
+                    return None
+                for m, c in p.items():
+                    acc[m] = acc.get(m, 0) + c
+            return {m: c for m, c in acc.items() if c}
+        if kind == z3.Z3_OP_SUB:
+            ch = e.children()
+            acc = _to_poly(ch[0])
+            if acc is None:
+                return None
+            acc = dict(acc)
+            for x in ch[1:]:
+                p = _to_poly(x)
+                if p is None:
+                    return None
+                for m, c in p.items():
+                    acc[m] = acc.get(m, 0) - c
+            return {m: c for m, c in acc.items() if c}
+        if kind == z3.Z3_OP_UMINUS:
+            p = _to_poly(e.arg(0))
+            return None if p is None else {m: -c for m, c in p.items()}
+        if kind == z3.Z3_OP_MUL:
+            acc = {(): 1}
+            for ch in e.children():
+                p = _to_poly(ch)
+                if p is None:
+                    return None
+                nxt = {}
+                for m1, c1 in acc.items():
+                    for m2, c2 in p.items():
+                        m = tuple(sorted(m1 + m2))
+                        nxt[m] = nxt.get(m, 0) + c1 * c2
+                if len(nxt) > _POLY_LIMIT:
+                    return None
+                acc = {m: c for m, c in nxt.items() if c}
+            return acc
+    # atom: anything else (variables, uninterpreted applications, mod/div, ite ...), abstracted recursively
+    a = abstract_nl(e) if (z3.is_app(e) and e.num_args() > 0) else e
+    _ATOMS[a.get_id()] = a
+    return {(a.get_id(),): 1}
+
+
+_ATOMS = {}
+
+
+def _from_poly(poly):
+    terms = []
+    for m in sorted(poly):
+        c = poly[m]
+        if not m:
+            terms.append(IV(c))
+            continue
+        acc = _ATOMS[m[0]]
+        for i in m[1:]:
+            a_, b_ = acc, _ATOMS[i]
+            acc = mulU(a_, b_)
+            key = ("mul", a_.get_id(), b_.get_id())
+            if key not in _ABS_SIDE_SEEN:
+                _ABS_SIDE_SEEN.add(key)
+                # true facts about multiplication, stated over the abstraction
+                _ABS_SIDE.append(z3.Implies(a_ == 1, acc == b_))
+                _ABS_SIDE.append(z3.Implies(b_ == 1, acc == a_))
+                _ABS_SIDE.append(z3.Implies(z3.Or(a_ == 0, b_ == 0), acc == 0))
+                _ABS_SIDE.append(z3.Implies(z3.And(a_ > 0, b_ > 0), z3.And(acc >= a_, acc >= b_)))
+                _ABS_SIDE.append(z3.Implies(z3.And(a_ >= 0, b_ >= 0), acc >= 0))
+                _ABS_SIDE.append(z3.Implies(z3.And(a_ != 0, b_ != 0), acc != 0))
+        terms.append(acc if c == 1 else IV(c) * acc)
+    if not terms:
+        return IV(0)
+    out = terms[0]
+    for t in terms[1:]:
+        out = out + t
     return out
